@@ -7,11 +7,13 @@ import (
 	"fmt"
 	"math/rand"
 	"net"
+	"strings"
 	"sync"
 	"sync/atomic"
 	"time"
 
 	tchannel "github.com/uber/tchannel-go"
+	"github.com/uber/tchannel-go/raw"
 	"github.com/uber/tchannel-go/relay"
 )
 
@@ -591,6 +593,7 @@ type c08Plan struct {
 	expire   bool
 	resBuilt bool
 	ck       *rawCsum // running checksum of an appended call as the destination sees it
+	early    *rawFrame // timer scenarios: the timeout error frame, if it arrived while the call req event was still being collected
 }
 
 type c08Scenario struct {
@@ -607,6 +610,8 @@ type c08Scenario struct {
 	byDest  map[[2]uint32]*c08Plan // (dst conn, dest id) -> call
 	usedIDs map[int]map[uint32]bool
 	hist    map[string]int
+	plans   []*c08Plan
+	steal   func(ci int, f *rawFrame) bool // frames that belong to a later (timer) event
 }
 
 func (s *c08Scenario) fail(format string, a ...interface{}) {
@@ -738,6 +743,17 @@ func (s *c08Scenario) eventFrame(c int, dec *c08Decision, frame []byte) [][]*raw
 	if outs == nil {
 		outs = make([][]*rawFrame, len(e.conns))
 	}
+	if s.steal != nil {
+		for ci := range outs {
+			kept := outs[ci][:0]
+			for _, f := range outs[ci] {
+				if !s.steal(ci, f) {
+					kept = append(kept, f)
+				}
+			}
+			outs[ci] = kept
+		}
+	}
 	s.obs = c08PutOuts(s.obs, outs)
 	return outs
 }
@@ -801,7 +817,19 @@ func (s *c08Scenario) sendCallReq(p *c08Plan) {
 	key := [2]uint32{uint32(p.src), p.id}
 	frame := p.req[0]
 	dup := s.live[key] != nil || s.tomb[key]
+	if p.expire {
+		// under load the relay's timer (40-60 ms) can fire before all barriers of this event are
+		// done: its error frame belongs to the timer event that follows
+		s.steal = func(ci int, f *rawFrame) bool {
+			if ci == p.src && f.Type == 0xff && f.ID == p.id && len(f.Payload) >= 28 && f.Payload[0] == 1 && c08IsRelayError(f) && p.early == nil {
+				p.early = f
+				return true
+			}
+			return false
+		}
+	}
 	outs := s.eventFrame(p.src, &p.dec, frame)
+	s.steal = nil
 	why := fmt.Sprintf("call req (source %d id %d, %d frames, %d appends, host decision %d)", p.src, p.id, len(p.req), len(p.dec.appends), p.dec.kind)
 	payload := frame[16:]
 	p.stage = 4
@@ -1099,8 +1127,8 @@ func (s *c08Scenario) hostile() {
 		outs := s.eventFrame(c, nil, rawFrameBytes(0x13, id, []byte{1, 0}))
 		s.expectNone(outs, "call req continue for an id without a call")
 	default: // an empty continuation payload for a live call is forwarded as it is
-		for _, p := range s.live {
-			if p.stage == 1 && p.ck == nil {
+		for _, p := range s.plans { // slice order: deterministic
+			if s.live[[2]uint32{uint32(p.src), p.id}] == p && p.stage == 1 && p.ck == nil {
 				s.hist["hostile: empty continuation payload"]++
 				outs := s.eventFrame(p.src, nil, rawFrameBytes(0x13, p.id, nil))
 				f := s.expectOne(outs, s.e.nsrc+p.dst, "empty call req continue of a live call")
@@ -1120,7 +1148,10 @@ func rawCallReqFirst(rng *rand.Rand, n int) []byte {
 
 func (s *c08Scenario) expireCall(p *c08Plan) {
 	// wait for the relay's timer: the source gets a timeout error frame
-	f := s.e.conns[p.src].waitFrame(3 * time.Second)
+	f := p.early
+	if f == nil {
+		f = s.e.conns[p.src].waitFrame(3 * time.Second)
+	}
 	time.Sleep(30 * time.Millisecond)
 	d := s.e.nsrc + p.dst
 	s.in = append(s.in, 2, int64(d), 0, int64(p.destID))
@@ -1176,12 +1207,13 @@ func runC08Scenario(rng *rand.Rand, o *Out, id string, tier string) {
 		byDest: map[[2]uint32]*c08Plan{}, usedIDs: map[int]map[uint32]bool{}, hist: map[string]int{}}
 	ncalls := pick(rng, 2, 4, 6, 10)
 	if tier != "quick" {
-		ncalls *= 2
+		ncalls += pick(rng, 0, 4, 10)
 	}
 	var plans []*c08Plan
 	for i := 0; i < ncalls; i++ {
 		plans = append(plans, s.genPlan(expiry))
 	}
+	s.plans = plans
 	next := 0
 	for steps := 0; steps < 400; steps++ {
 		var active []*c08Plan
@@ -1574,6 +1606,84 @@ func runC08Hop2(rng *rand.Rand, o *Out, id string) {
 	o.Oracle("relayhop2", id, true, fmt.Sprint(id, maxA, maxB, ncalls), verdict)
 }
 
+// ---------------------------------------------------------------- sub relaytiny
+
+// A peer is free to use small frames.  A call whose arg1 does not end within the first frame is
+// served by a real server when sent directly; through a relay it must arrive as well.
+func runC08Tiny(rng *rand.Rand, o *Out, id string) {
+	method := "tiny-" + strings.Repeat("m", pick(rng, 60, 100, 200))
+	server, err := tchannel.NewChannel("svc", nil)
+	if err != nil {
+		o.Oracle("relaytiny", id, false, id, "harness: "+err.Error())
+		return
+	}
+	defer server.Close()
+	server.Register(raw.Wrap(&captureHandler{}), method)
+	if err := server.ListenAndServe("127.0.0.1:0"); err != nil {
+		o.Oracle("relaytiny", id, false, id, "harness: "+err.Error())
+		return
+	}
+	host := &c08Host{route: map[string]string{"svc": server.PeerInfo().HostPort}}
+	rly, err := tchannel.NewChannel("c08-relay-tiny", &tchannel.ChannelOptions{RelayHost: host})
+	if err != nil {
+		o.Oracle("relaytiny", id, false, id, "harness: "+err.Error())
+		return
+	}
+	defer rly.Close()
+	if err := rly.ListenAndServe("127.0.0.1:0"); err != nil {
+		o.Oracle("relaytiny", id, false, id, "harness: "+err.Error())
+		return
+	}
+	arg3 := []byte(randBytes(rng, pick(rng, 0, 10, 300)))
+	frames := buildRawCallFrames(true, 5, rawCallReqHeader(3000, make([]byte, 25), "svc", [][2]string{{"as", "raw"}, {"cn", "tiny"}}), byte(pick(rng, 0, 1, 3)),
+		[3][]byte{[]byte(method), []byte("a2"), arg3}, 100)
+	try := func(hp string) (string, bool) {
+		c, err := net.DialTimeout("tcp", hp, 2*time.Second)
+		if err != nil {
+			return "harness: " + err.Error(), false
+		}
+		defer c.Close()
+		if _, err := rawClientHandshake(c); err != nil {
+			return "harness: " + err.Error(), false
+		}
+		for _, f := range frames {
+			c.Write(f)
+		}
+		var frags []*rawCall
+		for {
+			f, err := readRawFrame(c, 1500*time.Millisecond)
+			if err != nil {
+				return "no response frame and no error frame within 1.5 s", false
+			}
+			if f.Type == 0xff {
+				return fmt.Sprintf("error frame code %d %q", f.Payload[0], f.Payload[imin(28, len(f.Payload)):]), false
+			}
+			pc, err := parseRawCall(f.Type, f.Payload)
+			if err != nil {
+				return "unparsable response", false
+			}
+			frags = append(frags, pc)
+			if pc.Flags&1 == 0 {
+				break
+			}
+		}
+		args := collectArgs(frags)
+		if len(args) != 3 || !bytes.Equal(args[2], arg3) {
+			return "wrong response", false
+		}
+		return "", true
+	}
+	verdict := ""
+	if msg, ok := try(server.PeerInfo().HostPort); !ok {
+		// the direct path is the reference: if the server itself refuses such a call it is not a relay matter
+		o.Hist("relaytiny: direct call refused (" + msg + ")")
+	} else if msg, ok := try(rly.PeerInfo().HostPort); !ok {
+		verdict = fmt.Sprintf("[c08:arg1-not-in-first-frame-dropped] a call sent in %d frames of <= 100 payload bytes whose arg1 (%d bytes) does not end within the first frame is answered when sent directly but not through a relay: %s", len(frames), len(method), msg)
+	}
+	o.Hist("relaytiny")
+	o.Oracle("relaytiny", id, true, fmt.Sprint(id, len(method), len(arg3)), verdict)
+}
+
 // ---------------------------------------------------------------- engine
 
 func engineRelayFwd(rng *rand.Rand, n int, tier string, o *Out) {
@@ -1581,13 +1691,17 @@ func engineRelayFwd(rng *rand.Rand, n int, tier string, o *Out) {
 	for i := 0; i < 12*n; i++ {
 		lazyreqCase(rng, o, fmt.Sprintf("lz%d", i))
 	}
-	for i := 0; i < n; i++ {
+	// a broken relay fails everywhere: after a few failures of a kind stop waiting out time limits
+	for i, f0 := 0, o.fails; i < n && o.fails < f0+8; i++ {
 		runC08Scenario(rng, o, fmt.Sprintf("sc%d", i), tier)
 	}
-	for i := 0; i < n/4+1; i++ {
+	for i, f0 := 0, o.fails; i < n/4+1 && o.fails < f0+3; i++ {
 		runC08Conc(rng, o, fmt.Sprintf("cc%d", i))
 	}
-	for i := 0; i < n/4+1; i++ {
+	for i, f0 := 0, o.fails; i < n/4+1 && o.fails < f0+3; i++ {
 		runC08Hop2(rng, o, fmt.Sprintf("h%d", i))
+	}
+	for i := 0; i < 2; i++ {
+		runC08Tiny(rng, o, fmt.Sprintf("t%d", i))
 	}
 }
